@@ -8,6 +8,7 @@ use crate::registry::Dyn;
 
 pub mod c01;
 pub mod c02;
+pub mod idxc;
 
 pub struct Plan<'a> {
     pub tier: Tier,
@@ -30,7 +31,7 @@ pub struct PropDef {
 }
 
 pub fn props() -> Vec<PropDef> {
-    vec![c01::DEF, c02::DEF]
+    vec![c01::DEF, c02::DEF, idxc::C05, idxc::C19]
 }
 
 /// Region-level dispatch.
@@ -46,6 +47,7 @@ pub fn dispatch<E: Entry>(prop: &str, ctx: &mut Ctx) {
 pub fn dispatch_stack<E: Entry, S: IdxC<Idx<E>>>(prop: &str, ctx: &mut Ctx) {
     match prop {
         "C02" => c02::run_stack::<E, S>(ctx),
+        "C19" => idxc::run_stack_share::<E, S>(ctx),
         _ => panic!("harness: no stack-level monitor for {prop}"),
     }
 }
